@@ -25,3 +25,4 @@ def run(prog, rep):
     _ru.run_static_memo(prog, rep)
     from ..rules import r_io as _rio2
     _rio2.run_swapped(prog, rep)
+    r_pair.run_vectors(prog, rep)
